@@ -6,6 +6,7 @@ A callable of the analysed code handed to the library (sorted(..., key=f)) is ca
 from __future__ import annotations
 
 import http.cookies as _hc
+import re as _re
 from typing import Any
 
 from .values import C, NONE, App, Ext, Fn, Bound, HDict, HList, HObj, Lam, Ref, Tup, Value
@@ -22,8 +23,12 @@ class HNative:
         return f"native<{type(self.obj).__name__}>"
 
 
-CTORS = {"http.cookies.SimpleCookie": _hc.SimpleCookie, "http.cookies.Morsel": _hc.Morsel, "http.cookies.BaseCookie": _hc.BaseCookie}
-NATIVE_TYPES = (_hc.BaseCookie, _hc.Morsel)
+CTORS = {"http.cookies.SimpleCookie": _hc.SimpleCookie, "http.cookies.Morsel": _hc.Morsel, "http.cookies.BaseCookie": _hc.BaseCookie,
+         # regular expressions: compiled patterns and match objects are library values; compiling a constant pattern and applying it to
+         # a constant subject is computed by the library (a symbolic subject stays an opaque call)
+         "re.compile": _re.compile, "re.match": _re.match, "re.fullmatch": _re.fullmatch, "re.search": _re.search, "re.sub": _re.sub,
+         "re.split": _re.split, "re.findall": _re.findall, "re.escape": _re.escape}
+NATIVE_TYPES = (_hc.BaseCookie, _hc.Morsel, _re.Pattern, _re.Match)
 
 
 class NotConcrete(Exception):
@@ -47,6 +52,8 @@ def to_py(I, run, v: Value, node=None):
     v = I.resolve(run, v)
     if isinstance(v, C):
         return v.v
+    if isinstance(v, Ext) and v.name.startswith("re.") and v.name[3:].isupper() and hasattr(_re, v.name[3:]):
+        return getattr(_re, v.name[3:])   # re.ASCII, re.IGNORECASE, ...
     if isinstance(v, Tup):
         return tuple(to_py(I, run, x, node) for x in v.items)
     if isinstance(v, Ref):
@@ -67,6 +74,8 @@ def to_py(I, run, v: Value, node=None):
 def from_py(I, run, o) -> Value:
     if o is None or isinstance(o, (bool, int, float, str, bytes)):
         return C(o)
+    if isinstance(o, _re.RegexFlag):
+        return C(int(o))
     if isinstance(o, NATIVE_TYPES):
         for a, c in run.heap.items():
             if isinstance(c, HNative) and c.obj is o:
@@ -106,7 +115,7 @@ def apply(I, run, fn, args, kwargs, node) -> Value:
         r = fn(*pa, **pk)
     except RaiseSig:
         raise
-    except (_hc.CookieError, TypeError, ValueError, KeyError, IndexError, AttributeError, StopIteration) as e:
+    except (_hc.CookieError, _re.error, TypeError, ValueError, KeyError, IndexError, AttributeError, StopIteration) as e:
         _raise(I, run, e, node)
     try:
         return from_py(I, run, r)
